@@ -236,6 +236,21 @@ def main():
     except Unsupported as e:
         rep.inconclusive.append(f'reachability half: {e}')
     results = par.pmap(explore, items)
+    # an intermediate type written by an earlier call must not cut off what lies behind it (shared with C06: props/c06.py explore_chain)
+    from . import c06
+    c06.G['time_budget'] = G.get('time_budget')
+    chain_cand = []
+    for r in par.pmap(c06.explore_chain, c06.CHAIN_ITEMS):
+        chain_cand += r.pop('violations', [])
+        rep.absorb(r)
+    for c in chain_cand[:3]:
+        is_viol, details = c06.native_check(c)
+        c['native'] = details
+        hist = [(e, c06.universe_chain()[t].name) for e, t, _ in c['steps']]
+        if is_viol:
+            rep.violations.append({'what': f'{c["why"]} | history {hist} | native: {details["why"]}', 'witness': c, 'key': 'chain/' + c['why'][:50]})
+        else:
+            rep.inconclusive.append(f'engine counterexample does not reproduce natively: {c["why"]} {hist}')
     cand = []
     for r in results:
         cand += r.pop('violations', [])
